@@ -61,6 +61,9 @@ class DemoStorage(ConflictResolvingStorage):
     :class:`~ZODB.FileStorage.FileStorage.FileStorage`.
     """
 
+    # True if the changes storage was created by (and belongs to) us.
+    _temporary_changes = False
+
     def __init__(self, name=None, base=None, changes=None,
                  close_base_on_close=None, close_changes_on_close=None):
         """Create a demo storage
